@@ -132,3 +132,26 @@ add("C06", "ground-truth (template j, rotation k, shift d) planting + candidate-
     "model's _optimize is logged; the result must be the logged arg-max (score, shift, label, rotation), also on noise.",
     "Oracle B relies on the model evaluating candidates through its _optimize method (observed T*K calls is asserted).",
     "DESIGN.md section 4 C06")
+
+add("C03", "identity-encoded tomograms (unique value per site and image) + history of loader operations mirrored on a sequential row model",
+    "Worlds of 1-4 tomograms whose sites are constant cubes holding the unique value 1000*j+i (or analytic particles "
+    "displaced by a unique vector per molecule) are loaded through single and batch loaders (int and str image ids, built "
+    "by add_tomogram / from_loaders / add_loader) and pushed through histories of 1-8 operations (filter, head, tail, "
+    "sample, sort/permutation via replace, replace, copy, binning(1), groupby with iterate/filter/head/tail/sample/"
+    "average/apply/align). After every step the derived loader's uids, image-id feature, sub-volume identities "
+    "(asnumpy/load/apply), group partitions and, on particle worlds, the rows of align/score/construct_landscape are "
+    "compared with the model; source loaders, molecules and image registries are snapshotted before and compared after.",
+    "sample's choice itself is not predicted (duplicate-free subset accepted). Mixed int/str image ids are not generated "
+    "(polars cannot hold them in one column; acryo fails loudly).",
+    "DESIGN.md section 4 C03")
+
+add("C07", "independent float64 reference pipeline for scores + consistency laws between score, landscape and align; icontract K2",
+    "ZNCC/NCC scores of displaced, noisy, unrelated and identical pairs (boxes 6-20, masks none/binary/soft, cutoffs, tilt "
+    "models, orientations) are compared to 1e-4 with Pearson / uncentred correlation of ifftn(W_lp * wedge * fftn(x*mask)); "
+    "range, identity = 1, gain and offset invariance; score == landscape centre == zero-range alignment score for ZNCC "
+    "and FSC; the arg-max of the (up-sampled 1/2/5x) landscape lies within one sample of the shift align reports for all "
+    "four models; loader.score and construct_landscape rows equal the model's per-sub-volume values.",
+    "The wedge mask entering the reference is the one returned by the model's public get_missing_wedge_mask (its geometry "
+    "is C08's job). FSC invariance is judged on inputs whose shells all carry power. Boxes below 8 voxels are skipped for "
+    "the arg-max law (circular PCC landscapes clip).",
+    "DESIGN.md section 4 C07")
